@@ -557,6 +557,7 @@ package jet
 //@   loop 0 invariant SameS(st) && RtOK(st) && 0 <= i && lef == len(fields) - 1 && lef >= 0
 //@   loop 1 invariant SameS(st) && RtOK(st) && lef == len(fields) - 1 && lef >= 0
 //@   ensures [balanced] SameS(st)
+//@   check [an-assignment-that-does-not-fail-has-stored-the-value] {C07,C12} ncalls("(*Runtime).setValue") + ncalls("(reflect.Value).Set") + ncalls("(reflect.Value).SetMapIndex") == 1
 //@   anypanic
 //@   exsures [runtime-valid-on-panic] RtX(st)
 //@ func (*Runtime).executeSetList
